@@ -481,13 +481,13 @@ func checkLookupSound(p *Program, r *Report, prefix *ssa.Function) {
 	r.floor("LOOKUP-SOUND", n, 3, "successful returns of the prefix lookup")
 }
 
-// exhaustedThroughPhi: the path holds "false" for a loop-carried variable all
-// of whose incoming values are the ok result of Iterator.NextRef (directly, or
-// through an in-package helper that returns that result or the constant
-// false): the iterator ran out, even though the last call's own result term is
-// not the one the branch tested.
-func exhaustedThroughPhi(p *Program, st *State) bool {
-	isNextOk := func(v ssa.Value) bool { return false }
+// phiCarriesResult finds, among the loop-carried variables that the path
+// values as `want`, one whose every incoming value is result number idx of a
+// call to one of the named functions (directly, or through an in-package helper
+// that returns that result or, if allowFalse, the constant false).  The
+// variable then stands for "the result of the most recent such call" although
+// the generic loop analysis treats it as an arbitrary value.
+func phiCarriesResult(p *Program, st *State, want bool, callees map[string]bool, idx int, allowFalse bool) *Term {
 	var okValue func(v ssa.Value, depth int) bool
 	okValue = func(v ssa.Value, depth int) bool {
 		if depth > 4 {
@@ -495,7 +495,7 @@ func exhaustedThroughPhi(p *Program, st *State) bool {
 		}
 		switch x := v.(type) {
 		case *ssa.Const:
-			return x.Value != nil && x.Value.ExactString() == "false"
+			return allowFalse && x.Value != nil && x.Value.ExactString() == "false"
 		case *ssa.Extract:
 			call, ok := x.Tuple.(*ssa.Call)
 			if !ok {
@@ -505,13 +505,12 @@ func exhaustedThroughPhi(p *Program, st *State) bool {
 			if cal == nil {
 				return false
 			}
-			if funcKey(cal) == "(*Iterator).NextRef" || funcKey(cal) == "(*Iterator).NextLog" {
-				return x.Index == 0
+			if callees[funcKey(cal)] {
+				return x.Index == idx
 			}
 			if cal.Pkg != p.Pkg {
 				return false
 			}
-			// helper: every return passes such a value at this position
 			n := 0
 			for _, b := range cal.Blocks {
 				if ret, ok := b.Instrs[len(b.Instrs)-1].(*ssa.Return); ok {
@@ -532,16 +531,14 @@ func exhaustedThroughPhi(p *Program, st *State) bool {
 		}
 		return false
 	}
-	_ = isNextOk
 	for _, k := range sortedFactKeys(st) {
-		if st.facts[k] {
+		if st.facts[k] != want {
 			continue
 		}
 		t := st.fterm[k]
 		if t == nil || t.Op != "loopvar" || len(t.Args) == 0 {
 			continue
 		}
-		// the loop mark names the function: .../<funcKey>#b<n>
 		id := t.Args[0].Aux
 		if i := strings.LastIndex(id, "#b"); i >= 0 {
 			id = id[:i]
@@ -556,10 +553,16 @@ func exhaustedThroughPhi(p *Program, st *State) bool {
 		for _, b := range fn.Blocks {
 			for _, ins := range b.Instrs {
 				if ph, ok := ins.(*ssa.Phi); ok && ph.Name() == t.Aux && okValue(ph, 0) {
-					return true
+					return t
 				}
 			}
 		}
 	}
-	return false
+	return nil
+}
+
+// exhaustedThroughPhi: the path holds "false" for a loop-carried variable all
+// of whose incoming values are the ok result of Iterator.NextRef/NextLog.
+func exhaustedThroughPhi(p *Program, st *State) bool {
+	return phiCarriesResult(p, st, false, map[string]bool{"(*Iterator).NextRef": true, "(*Iterator).NextLog": true}, 0, true) != nil
 }
